@@ -100,6 +100,11 @@ static void x_bound(int n, double *x, const double *lb, const double *ub)
             width = (ub[i] - lb[i]) * 0.5;
             th = tanh(x[i]);
             x[i] = mid + th * width;
+            /* |th| can round to 1 and the sum is rounded, too */
+            if (x[i] < lb[i])
+                x[i] = lb[i];
+            else if (x[i] > ub[i])
+                x[i] = ub[i];
         }
         else if (!nlopt_isinf(lb[i]))
             x[i] = lb[i] + x[i] * x[i];
